@@ -60,6 +60,7 @@ SNIPPETS = {
     'unclosed-calls': 'def foo(a, b=1):\n    pass\nfoo(\nx = foo(1, \nif x:\n    y = [foo(a=3\n',
     'compiled-nostub': 'from _functools import reduce\nreduce\nimport _functools\nclass A: pass\nx = _functools if c else A\nx\nx()\n',
     'semicolon-error': 'import os\nfoo(os.path); )\nif os: foo(os); else\nbar(os); import os.\n',
+    'docstring-code': 'import os\ndef doc():\n    """Use ``doc`` or ``__na\n    >>> os.pa\n    >>> __\n    """\n"""\nissues warnings if ``_',
     'unterminated': 'def f(:\n    return (1,\nclass\n  x = [\nf(\n',
 }
 # characters that str.splitlines() treats as line boundaries but Python/parso do not (found
